@@ -90,7 +90,7 @@ def canonNat (s : String) : Option Nat :=
   | none => none
 
 def validLang (l : String) : Bool :=
-  ["en", "en-US", "pl", "fr-CA", "de", "und", "ca", "ca-valencia", "de-1901", "de-1996"].contains l
+  ["en", "en-US", "pl", "fr-CA", "de", "und", "ca", "ca-valencia", "de-1901", "de-1996", "aa", "ab", "af", "ak", "am", "an", "ar", "as", "az", "be", "bg", "bm", "bn", "bo", "br", "bs", "cs", "cy", "da", "dz", "ee", "el", "eo", "es", "et", "eu", "fa", "ff", "fi", "fo"].contains l
 
 def parseLookup (ty arg x via : String) (noCtx : Bool := false) : Option DOp :=
   if validArg ty arg && (canonNat x).isSome && (via == "d" || via == "k") then some (mkOp ty arg x noCtx) else none
@@ -149,11 +149,56 @@ def reenterOk (conc : Bool) (origin : List Bool) (op : String) : Bool :=
     if x == "777" then !conc && (match h.toNat? with | some n => origin.getD n false | none => false) else true
   | _ => true
 
+/-- `x = 778`: the callback of a lookup on handle `h` does a lookup of the fixed key `C "7a7a"` on ANOTHER memoizer —
+the live handle with the largest index below `h` that refers to a different allocation — and appends that lookup's outcome to its own result.  Memoizers are
+independent objects, so this is the outer lookup followed by the inner one (the inner one runs after the outer
+construction, inside the outer callback); nothing else changes.  `none` = not such an op / no partner (printed `bad-op`). -/
+def nestedLookup (s : MState World String String String Inst String) (op : String) :
+    Option (MState World String String String Inst String × String) :=
+  match op.splitOn ":" with
+  | ["get", h, ty, arg, "778", via] =>
+    match canonNat h, parseLookup ty arg "778" via with
+    | some n, some o =>
+      -- (a DIFFERENT memoizer: two handles of one language share the allocation, and re-entering the same memoizer
+      -- is outside the property: `RefCell` / `Mutex`)
+      let own := match s.handles[n]? with
+        | some (some oid) => some oid
+        | _ => none
+      let partner := (List.range n).reverse.find? fun j =>
+        match s.handles[j]? with
+        | some (some oid) => own != some oid
+        | _ => false
+      (match partner with
+       | none => none
+       | some j =>
+         let r1 := mstep ext s (.lookup n o)
+         (match r1.2 with
+          | .res (.ok out) ev1 =>
+            let r2 := mstep ext r1.1 (.lookup j (mkOp "C" "7a7a" "0"))
+            (match r2.2 with
+             | .res out2 ev2 =>
+               let evs := ([ev1, ev2].filterMap id).map showEvent
+               some (r2.1, ",".intercalate evs ++ ">ok:" ++ out ++ "+inner=" ++ showOutcome out2)
+             | _ => none)
+          | other => some (r1.1, showObs other)))
+    | _, _ => none
+  | _ => none
+
+def isNested (op : String) : Bool :=
+  match op.splitOn ":" with
+  | ["get", _, _, _, "778", _] => true
+  | _ => false
+
 def runSeq (conc : Bool) (body : String) : String :=
   let ops := body.splitOn ";"
   -- `lang:`/`new:` ops that are rejected (bad language, `lang:` on the concurrent flavour) hand out no handle
   let origin := originOf (ops.filter fun op => (parseMOp conc op).isSome)
   let (_, outs) := ops.foldl (fun (acc : MState World String String String Inst String × List String) op =>
+    if isNested op then
+      (match nestedLookup acc.1 op with
+       | some (s', t) => (s', t :: acc.2)
+       | none => (acc.1, "bad-op" :: acc.2))
+    else
     match (if reenterOk conc origin op then parseMOp conc op else none) with
     | some o =>
       let r := mstep ext acc.1 o
